@@ -83,6 +83,16 @@ fn child(args: &[String], slots: Option<&str>) -> std::io::Result<std::process::
 
 /// Parent side. `args` are the simulator's own arguments (a batch or a replay).
 pub fn parent(scen: &dyn Scenario, tier: Tier, seed: u64, replay: Option<&str>, args: &[String]) -> i32 {
+    parent_attempt(scen, tier, seed, replay, args, 0)
+}
+
+/// One supervised batch. A death of the simulator process that no in-flight run reproduces in a
+/// fresh process is not attributable to a plan (every plan is a pure function of the seed): the
+/// batch is executed once more (`attempt` 0 -> 1) before it is called a harness error. Seen once, in
+/// the last session, for C15 (SIGSEGV; the trainer scenarios leave a helper thread behind when argmin
+/// does not terminate within its budget, which is the suspected cause); a death that a run reproduces
+/// is reported as a violation as before.
+fn parent_attempt(scen: &dyn Scenario, tier: Tier, seed: u64, replay: Option<&str>, args: &[String], attempt: u32) -> i32 {
     let prop = scen.id();
     let dir = format!("{}/logs", crate::runner::verif_root());
     let _ = std::fs::create_dir_all(&dir);
@@ -155,6 +165,10 @@ pub fn parent(scen: &dyn Scenario, tier: Tier, seed: u64, replay: Option<&str>, 
             }
         }
     }
-    println!("HARNESS-ERROR: the simulator process died ({how_died}) and none of the in-flight runs {cands:?} reproduces it");
+    if attempt == 0 {
+        println!("NOTE: the simulator process died ({how_died}); none of the in-flight runs {cands:?} reproduces it in a fresh process; the (deterministic) batch is executed once more");
+        return parent_attempt(scen, tier, seed, replay, args, 1);
+    }
+    println!("HARNESS-ERROR: the simulator process died ({how_died}) twice and none of the in-flight runs {cands:?} reproduces it");
     2
 }
